@@ -229,6 +229,14 @@ class StopCtx(FsmCtx):
                 return ["rest", "GET", URL + "state", "ok"]
             return ["rest", "GET", URL + "manual-stop", "ok"]
         # stage 0: C01-style walk without operator stop (start while up is part of it)
+        if w.state() == "ESTABLISHED" and rng.chance(0.06):
+            # the application queues a message; it goes out when the peer's next KEEPALIVE arrives
+            self.stats["gen:handler_queued_message"] += 1
+            return ["hqueue", rng.pick(["notification", "notification", "update"]), rng.randrange(1, 9)]
+        if w.state() == "ESTABLISHED" and not w.handler.inter_mq.empty() and rng.chance(0.6):
+            k = self.cur_k()
+            if k is not None:
+                return ["send", k, rp.encode_keepalive().hex(), []]
         op = FsmCtx.choose(self, rng)
         if op is not None and op[0] == "rest" and op[2].endswith("manual-stop"):
             return ["rest", "GET", URL + "manual-start", "ok"]
@@ -269,6 +277,7 @@ class StopCtx(FsmCtx):
                                         "manual stop in %s: agent did %s" % (st_before, names))
             self.op_stopped = True
             self.t_stop = w.now()
+            self.seq_at_stop = w.reactor._seq
             # every connection closed, closing or aborted
             for c in w.live_conns():
                 if c.c.aborted or c.closing():
@@ -296,7 +305,14 @@ class StopCtx(FsmCtx):
         elif self.op_stopped:
             # anything the environment does while stopped: silence
             self.stats["ops_while_stopped"] += 1
+            fired = [e for e in w.log[pos:] if e[2] == "fire"]
+            in_flight = bool(fired) and fired[0][3] == "thread" and fired[0][5] <= getattr(self, "seq_at_stop", -1)
+            if in_flight and any(t[0] == "tx" for t in toks):
+                # a deferred write that had been queued before the stop (message accepted earlier, in flight)
+                self.stats["deferred_write_in_flight_at_stop"] += 1
             for t, n in zip(toks, names):
+                if in_flight and t[0] == "tx":
+                    continue
                 if t[0] == "tx" or t[0] == "connect":
                     raise Violation("C13", "silence", "while-stopped/%s/%s" % (labels[0] if labels else op[0], n.split("(")[0]),
                                     "stopped since t=%.3f; on %s at t=%.3f the agent did %s"
@@ -332,7 +348,7 @@ class StopProfile(FsmProfile):
     rule = ("one run = cycles of [C01-style walk to some state (incl. connecting, closing, damped)] -> GET manual-stop -> "
             "1-24 environment ops (pending connect resolves, timers, peer data/close, close completion, repeated stop) -> "
             "GET manual-start -> more ops; non-trivial = reached OpenSent or beyond; distinct = distinct cell sequence")
-    probes = ["stop_in_ESTABLISHED", "stop_in_CONNECT", "stop_in_OPENSENT", "stop_in_OPENCONFIRM", "stop_in_IDLE",
+    probes = ["gen:handler_queued_message", "stop_in_ESTABLISHED", "stop_in_CONNECT", "stop_in_OPENSENT", "stop_in_OPENCONFIRM", "stop_in_IDLE",
               "stop_with_attempt_in_flight", "stop_while_closing", "start_from_stopped", "start_in_ESTABLISHED",
               "ops_while_stopped"]
 
@@ -677,6 +693,8 @@ class StatsCtx(FsmCtx):
             return ["rest", "GET", URL + "statistic", "ok"]
         if self.cfg.get("handler_faults") and rng.chance(0.04):
             return ["hfail", rng.randrange(1, 4)]
+        if w.state() == "ESTABLISHED" and self.cfg.get("p_rest_send") and rng.chance(0.04):
+            return ["hqueue", rng.pick(["notification", "update"]), rng.randrange(1, 9)]
         if w.state() == "ESTABLISHED" and rng.chance(self.cfg.get("p_rest_send", 0)):
             # operator-originated messages: sent counters must follow them too
             from sim.profiles import restapi
@@ -699,6 +717,16 @@ class StatsCtx(FsmCtx):
             if rng.chance(0.6):
                 body["res"] = rng.pick([0, 1, 2, 255, 256, -1, None, "x", 1.5])
             return ["rest", "POST", URL + "send/route-refresh", "ok", body]
+        if w.state() == "ESTABLISHED" and rng.chance(0.08):
+            # several harmless messages in ONE segment (no close can happen inside it, so every frame is
+            # attributable): each of them counts
+            k = self.cur_k()
+            if k is not None and w.live_conns()[k].readable():
+                as4 = bool(getattr(w.factory.fsm.protocol, "fourbytesas", False))
+                parts = [rng.pick([rp.encode_keepalive(), rp.encode_keepalive(), base.gen_update(rng, self.cfg, as4),
+                                   rp.encode_route_refresh(1, 1)]) for _ in range(rng.randrange(2, 5))]
+                self.stats["gen:coalesced_harmless_messages"] += 1
+                return ["send", k, b"".join(parts).hex(), []]
         if self.cfg["hostile"] and rng.chance(0.25):
             readable = [k for k, c in enumerate(w.live_conns()) if c.readable()]
             if readable:
@@ -797,7 +825,7 @@ class StatsProfile(FsmProfile):
             "quiescent points and at the end; each answer is compared with "
             "the frames by type in the current connection's write log and delivered stream; non-trivial = reached OpenSent; "
             "distinct = distinct cell sequence")
-    probes = ["gen:unencodable_rest_update", "op:hfail", "nonzero_sent_Updates", "nonzero_sent_RouteRefresh", "stat_comparisons", "nonzero_sent_Opens", "nonzero_sent_Keepalives", "nonzero_sent_Notifications",
+    probes = ["gen:coalesced_harmless_messages", "gen:unencodable_rest_update", "op:hfail", "nonzero_sent_Updates", "nonzero_sent_RouteRefresh", "stat_comparisons", "nonzero_sent_Opens", "nonzero_sent_Keepalives", "nonzero_sent_Notifications",
               "nonzero_recv_Opens", "nonzero_recv_Keepalives", "nonzero_recv_Updates", "nonzero_recv_Notifications",
               "nonzero_recv_RouteRefresh"]
 
